@@ -28,6 +28,7 @@ from functools import partial
 
 from pymbolic.mapper import IdentityMapper
 from pymbolic.primitives import Call, CallWithKwargs, Lookup, Subscript, Variable
+from pytools import UniqueNameGenerator
 from pytools.py_codegen import (  # It's the same code. So sue me.
     PythonCodeGenerator as FortranEmitterBase)
 
@@ -66,13 +67,28 @@ wrap_line = partial(wrap_line_base, pad_func=pad_fortran)
 
 # {{{ name manager
 
+class _CaseInsensitiveUniqueNameGenerator(UniqueNameGenerator):
+    """Fortran identifiers that differ only in letter case are the same
+    identifier.
+    """
+
+    def __init__(self):
+        super().__init__()
+        self._lowercase_names = set()
+
+    def is_name_conflicting(self, name):
+        return name.lower() in self._lowercase_names
+
+    def _name_added(self, name):
+        self._lowercase_names.add(name.lower())
+
+
 class FortranNameManager:
     """Maps names that appear in intermediate code to Fortran identifiers.
     """
 
     def __init__(self):
-        from pytools import UniqueNameGenerator
-        self.name_generator = UniqueNameGenerator()
+        self.name_generator = _CaseInsensitiveUniqueNameGenerator()
         self.local_map = KeyToUniqueNameMap(name_generator=self.name_generator)
         self.global_map = KeyToUniqueNameMap(start={
                 "<t>": "dagrt_t", "<dt>": "dagrt_dt"},
